@@ -8,12 +8,12 @@ ID = 'C04'
 LEVEL = 'exploration'
 TIERS = {'quick': 6000, 'thorough': 300000}
 RULE = ('seeded sessions of 1-6 stream operations (shell, exec_out, streaming_shell, root, list, stat, pull with/without callback, single- and '
-        'multi-WRITE push) against a strict stop-and-wait adbd model with 32-bit remote ids != local ids; a protocol monitor on the device side '
+        'multi-WRITE push, also with a device FAIL that overtakes an OKAY, and pulls whose local destination fails mid-transfer so that the stream is closed while a device WRITE is in flight) against a strict stop-and-wait adbd model with 32-bit remote ids != local ids; a protocol monitor on the device side '
         'runs one state machine per local id with knowledge of which device packets the host has already read. non-trivial = >= 2 streams and '
         '>= 1 multi-WRITE transfer in the run; distinct = event-log digests')
 ASSUMPTIONS = ['the device stalls until the OKAY it is owed arrives, as adbd does, so a missing OKAY becomes a timeout',
                'that list/stat/pull close their stream is C08/C09\'s statement; reboot() legitimately leaves its stream open']
-EXPECT_PROBES = {'all': ['c04_multi_wrte_push', 'c04_ge_4_streams', 'empty_payload_wrte_acked']}
+EXPECT_PROBES = {'all': ['c04_multi_wrte_push', 'c04_ge_4_streams', 'empty_payload_wrte_acked', 'push_fail_sent', 'fail_before_okay', 'wrte_in_flight_at_host_close']}
 KINDS = ['shell', 'exec_out', 'streaming_shell', 'root', 'list', 'stat', 'pull', 'pull', 'push', 'push']
 OWN = ('protocol', 'wrong-result', 'unexpected-exception', 'timeout-instead-of-result', 'missing-exception', 'wrong-exception', 'hang', 'no-termination',
        'unacked-write', 'clse-count')
@@ -28,6 +28,24 @@ def generate(seed, tier):
         scn['device']['maxdata'] = g.pick([4096, 4097, 8192])
         scn['actors'][0].append({'op': 'push', 'src': 'bytesio', 'content': {'seed': g.int(0, 1 << 30), 'size': g.int(5000, 40000), 'alpha': 'bin'},
                                  'path': '/data/local/tmp/multi', 'mtime': g.pick([0, 5])})
+    c = g.int(0, 9)
+    d = scn['device']
+    d['inflight_on_close'] = g.chance(0.7)
+    if c <= 1:
+        # the device rejects a multi-WRITE push; its FAIL may overtake the OKAY it races with
+        d['maxdata'] = g.pick([4096, 8192])
+        d['push_fail'] = {'at': g.pick(['send', 'data']), 'n': g.int(1, 3), 'reason': b'Read-only file system'.hex(), 'cut_reason': g.chance(0.3), 'path': '/data/local/tmp/rejected'}
+        d['fail_before_okay'] = g.chance(0.6)
+        if g.chance(0.4):
+            d['push_fail']['delay'] = g.pick([0.0005, 0.005])
+        scn['actors'][0].append({'op': 'push', 'src': 'bytesio', 'content': {'seed': g.int(0, 1 << 30), 'size': g.int(9000, 40000), 'alpha': 'bin'}, 'path': '/data/local/tmp/rejected', 'mtime': 4})
+    elif c <= 3:
+        # the local destination fails in the middle of a multi-record pull: the stream is closed while the device still has data to send
+        p = S.add_file(g, d, 20000)
+        d['fs'][p]['content']['size'] = g.int(3000, 30000)
+        d['fs'][p]['records'] = [g.pick([500, 1000, 2000])]
+        d['cut_plans'] = [{'policy': g.pick(['record', 'random', 'straddle']), 'seed': g.int(0, 999)}]
+        scn['actors'][0].append({'op': 'pull', 'path': p, 'dest': 'failing', 'fail_after': g.int(0, 3)})
     return {'seed': seed, 'scn': scn}
 
 
